@@ -10,6 +10,15 @@ BECH32_ASSUME = [
 ]
 
 PROPS = {
+    "C03": dict(
+        pkg="c03",
+        quick=T(4, 1, 600),
+        thorough=T(16, 60, 3000, fuzz=[dict(name="FuzzSentence", count=1500000)]),
+        assumptions=[
+            "harness/ref/bip39 (bit-string codec, self-checked on the official Trezor vectors) is the BIP-39 specification",
+            "english word list = /verif/data/english.txt, whose SHA-256 is the published digest of bip-0039/english.txt; japanese list pinned to the digest of the pinned commit (no independent copy exists offline) and cross-checked only by the repository's official Japanese vectors",
+        ],
+    ),
     "C04": dict(
         pkg="c04",
         quick=T(4, 1, 600),
@@ -31,6 +40,15 @@ PROPS = {
             "only trits in {-1,0,1} and trytes in 9A-Z are generated; behaviour outside is documented as undefined",
         ],
     ),
+    "C15": dict(
+        pkg="c15",
+        quick=T(4, 1, 600),
+        thorough=T(16, 40, 3000),
+        assumptions=[
+            "crypto/sha256, sha512, sha1 and x/crypto/blake2b are trusted as the hash functions",
+            "the reference is an iterative binary-counter construction plus the RFC 9162 inclusion-proof verifier; both live in harness/c15",
+        ],
+    ),
     "C16": dict(
         pkg="c16",
         quick=T(4, 1, 600),
@@ -47,6 +65,22 @@ PROPS = {
             "golang.org/x/crypto/blake2b is trusted for the address hashes and the migration checksum",
             "harness/ref/trit is the specification of b1t6 and the tryte alphabet",
             "the table (0x00,32) (0x08,20) (0x10,20) and the four prefixes iota/atoi/smr/rms are the 'known' versions and prefixes of the statement",
+        ],
+    ),
+    "C07": dict(
+        pkg="c07",
+        quick=T(4, 1, 600),
+        thorough=T(16, 100, 3000),
+        assumptions=["crypto/ed25519 of the Go standard library is the RFC 8032 reference (differential oracle)"],
+    ),
+    "C09": dict(
+        pkg="c09",
+        quick=T(4, 1, 600),
+        thorough=T(16, 60, 3000),
+        assumptions=[
+            "harness/ref/bip39: own PBKDF2-HMAC-SHA512 on crypto/hmac (self-checked on an official BIP-39 seed vector) and the pinned word lists",
+            "NFKD: a hand-made (raw, NFKD) piece table from the Unicode character database is cross-checked against golang.org/x/text at start-up; for arbitrary passphrases x/text NFKD itself is the oracle (trusted)",
+            "x/text NFC is used only to render list words in composed form for the parser inputs",
         ],
     ),
     "C10": dict(
